@@ -45,9 +45,9 @@ def choose(rnd, rels, p=0.35, mx=0, kinds=None):
         elif k == "siblings":
             for r in rnd.sample(rels, min(len(rels), 2)):
                 stem = r[:-3] if r.endswith(".rs") else r
-                for name in rnd.sample([stem + ".tmp", r + ".breadlog-tmp", r + ".tmp", r + "~", r + ".orig", r + ".bak",
+                for name in [stem + ".tmp", r + ".tmp"] + rnd.sample([r + ".breadlog-tmp", r + "~", r + ".orig", r + ".bak", stem + ".rs.new",
                                         os.path.join(os.path.dirname(r), "." + os.path.basename(r) + ".swp"),
-                                        os.path.join(os.path.dirname(r), "breadlog-0123abcd.tmp")], 3):
+                                        os.path.join(os.path.dirname(r), "breadlog-0123abcd.tmp")], 2):
                     amb["siblings"][name] = ("// sibling of %s\nfn s() { info!(\"sibling file, not source\"); }\n" % r).encode() * rnd.choice([1, 1, 40])
     return amb
 
